@@ -5,7 +5,7 @@ LEVEL = "model_checking"
 
 
 def check(run):
-    cpu_common.run_cpu(run, ["flags", "ops", "edge", "seq", "mem", "keys"],
+    cpu_common.run_cpu(run, ["flags", "ops", "edge", "seq", "mem", "keys", "dma"],
                        "the number of ExecuteMachineCycle calls between instruction boundaries is compared with SM83!Exec's cycle count and with the independent "
                        "documented table SM83!CyclesDoc: flags = every defined opcode x all 16 flag nibbles (both outcomes of every condition, exhaustive); "
                        "ops = every opcode x random full states; mem = every opcode with pointers in every memory region. "
